@@ -15,6 +15,11 @@ EXTENDS Distance, TraceBase
 Pairs(n) == OffPairs(n)
 At(M, p) == M[p[1]][p[2]]
 Shape(n, M) == IsSquare(n, M)
+(* scale-regime records (50..400 nodes): the L0 definitions (RelaxFix n^3 x diameter,  *)
+(* WalkTab n^4, the loop replicas of Drift) are unaffordable there; they are judged *)
+(* with the cheap equivalents of Distance.tla (mc: DistanceImpl!FastOracleInv).     *)
+Big(r) == r.n > 20
+DistOf(r) == IF Big(r) /\ IsHopLen(r.n, r.Lm) THEN HopDistFast(r.n, r.Lm) ELSE Dist(r.n, r.Lm)
 
 (* ------------------------------------------------------------------- C03 ----- *)
 (* kind "dist": a distance routine.  r.D always; r.R (breadthdist, reachdist),   *)
@@ -39,6 +44,11 @@ JudgeDist(r, DD) ==
   Chk("HopsIsSomeMinPath",  r.B = <<>> \/
                               LET zero == \E p \in Pairs(n) : At(r.Lm, p) = 0
                                   WT == WalkTabH(n, r.Lm, IF zero THEN 3 * n ELSE n - 1) IN
+                              (* unit lengths: a walk of h edges has length h, so  *)
+                              (* MinHops = {distance} (mc: FastOracleInv)          *)
+                              IF Big(r) /\ IsHopLen(n, r.Lm)
+                              THEN \A p \in Pairs(n) : At(DD, p) < INF => At(r.B, p) = At(DD, p)
+                              ELSE
                               \A p \in Pairs(n) : At(DD, p) < INF =>
                                  At(r.B, p) \in MinHops(n, DD, WT, p[1], p[2]),
   "ok")))))))
@@ -62,12 +72,17 @@ JudgeMean(r, DD) ==
   Skip("fewer_than_2_nodes", n < 2,
   Chk("Returns",    r.raised = "",
   Chk("WellFormed", r.malformed = "" /\ (r.Din = <<>> \/ Shape(n, r.Din)),
+  (* beyond 20 nodes the same mean inverse, evaluated to 10^-9 without leaving    *)
+  (* 32 bits (Distance!MeanInvBigOK; distances must stay below 2*10^8 / n(n-1))   *)
+  LET InvOK(obs, D) == IF Big(r) THEN MeanInvBigOK(obs, n, D) ELSE MeanInvOK(obs, n, D) IN
   IF r.Din # <<>>
-  THEN Chk("CharpathIsMean",           MeanDistOK(r.lam, n, r.Din),
-       Chk("CharpathEffIsMeanInverse", MeanInvOK(r.eff, n, r.Din), "ok"))
+  THEN Skip("distance_beyond_exact_range", Big(r) /\ ~MeanInvBigInRange(n, r.Din),
+       Chk("CharpathIsMean",           MeanDistOK(r.lam, n, r.Din),
+       Chk("CharpathEffIsMeanInverse", InvOK(r.eff, r.Din), "ok")))
   (* a pair at distance 0 ('log' of weight 1) has no inverse: outside the domain  *)
   ELSE Skip("zero_distance_pair", \E p \in Pairs(n) : At(DD, p) = 0,
-       Chk("EfficiencyIsMeanInverse",  MeanInvOK(r.eff, n, DD), "ok")))))
+       Skip("distance_beyond_exact_range", Big(r) /\ ~MeanInvBigInRange(n, DD),
+       Chk("EfficiencyIsMeanInverse",  InvOK(r.eff, DD), "ok"))))))
 
 (* ------------------------------------------------------------------- C12 ----- *)
 (* kind "retrieve": distance_wei_floyd -> retrieve_shortest_path for all (s, t):  *)
@@ -89,6 +104,57 @@ JudgeRetrieve(r, DD) ==
   (* "and the reported total length"                                              *)
   Chk("TotalIsSPL",          \A p \in NE : PathLen(Lm, At(P, p)) = At(r.D, p),
   "ok"))))))))
+
+(* kind "retrieve_big" (scale regime, 130..400 nodes): the same call chain, judged  *)
+(* for the sources r.srcs (node ids drawn by the harness RNG) x ALL targets:        *)
+(* r.paths[x][t] = the path returned for (r.srcs[x], t).  r.Lm, r.D, r.B are the    *)
+(* full matrices.  The clauses are those of JudgeRetrieve; "unreachable" is decided *)
+(* by breadth-first search over the connections of r.Lm (Distance!ReachFrom).       *)
+JudgeRetrieveBig(r) ==
+  LET n == r.n  Lm == r.Lm  X == 1..Len(r.srcs)
+      Out == OutNb(n, Lm)
+      reach == TLCEval([x \in X |-> ReachFrom(Out, r.srcs[x])])
+      Q == {q \in X \X (1..n) : q[2] # r.srcs[q[1]]}           \* <<x, t>>, t # source
+      Path(q) == r.paths[q[1]][q[2]]
+      ST(q) == <<r.srcs[q[1]], q[2]>>
+      NE == {q \in Q : Path(q) # <<>>} IN
+  Chk("Returns",             r.raised = "",
+  Chk("WellFormed",          r.malformed = "" /\ Shape(n, r.D) /\ Shape(n, r.B) /\ Shape(n, Lm)
+                               /\ Len(r.paths) = Len(r.srcs)
+                               /\ \A x \in X : r.srcs[x] \in 1..n /\ DOMAIN r.paths[x] = 1..n,
+  Chk("EmptyIffUnreachable", \A q \in Q : (Path(q) = <<>>) <=> (q[2] \notin reach[q[1]]),
+  Chk("StartsAtS",           \A q \in NE : Path(q)[1] = ST(q)[1],
+  Chk("EndsAtT",             \A q \in NE : Path(q)[Len(Path(q))] = ST(q)[2],
+  Chk("EdgesExist",          \A q \in NE : IsWalk(n, Lm, Path(q)),
+  Chk("LenIsHopsPlus1",      \A q \in NE : Len(Path(q)) = At(r.B, ST(q)) + 1,
+  Chk("TotalIsSPL",          \A q \in NE : PathLen(Lm, Path(q)) = At(r.D, ST(q)),
+  "ok"))))))))
+
+(* kind "distbig" (C03, scale regime): distance_wei / distance_wei_floyd on 130..400 *)
+(* nodes with lengths >= 1.  Same clauses as JudgeDist, decided relationally: the   *)
+(* reported row of every source must solve the one-pass equation that only the true *)
+(* distance row solves (Distance!IsDistRow); hop counts are judged for the sources  *)
+(* r.rows (drawn by the harness RNG) against Distance!MinHopsRow.                   *)
+JudgeDistBig(r) ==
+  LET n == r.n  D == r.D  Lm == r.Lm
+      Out == OutNb(n, Lm)  In == InNb(n, Lm)
+      Row(s) == [D[s] EXCEPT ![s] = 0] IN
+  Skip("zero_length_connection", ~PosLen(n, Lm),
+  Chk("Returns",            r.raised = "",
+  Chk("WellFormed",         r.malformed = "" /\ Shape(n, D) /\ Shape(n, Lm)
+                              /\ (r.B = <<>> \/ Shape(n, r.B)) /\ \A x \in DOMAIN r.rows : r.rows[x] \in 1..n,
+  Chk("InfIffUnreachable",  \A s \in 1..n : LET R == ReachFrom(Out, s) IN
+                               \A t \in (1..n) \ {s} : (D[s][t] = INF) <=> (t \notin R),
+  Chk("OffDiagEqualsDist",  \A s \in 1..n : IsDistRow(n, Lm, In, s, Row(s)),
+  Chk("DiagZero",           r.diag0 = 0 \/ DiagZero(n, D),
+  Chk("HopsIsSomeMinPath",  r.B = <<>> \/
+                              \A x \in DOMAIN r.rows :
+                                 LET s == r.rows[x]  H == MinHopsRow(n, Lm, In, s, Row(s)) IN
+                                 \A t \in (1..n) \ {s} : D[s][t] < INF => r.B[s][t] \in H[t],
+  "ok")))))))
+BigClass(r) ==
+  IF \E i \in 1..r.n : r.Lm[i][i] < INF THEN "selfloop"
+  ELSE IF ~PosLen(r.n, r.Lm) THEN "zero_length_edge" ELSE "large_network"
 
 (* kind "nav": navigation_wu(L, Dm, max_hops) -> sr, PLb, PLw, PLd, paths.        *)
 (* r.L (0 = no connection, integer lengths), r.Dm, r.maxh (-1 = None)             *)
@@ -122,7 +188,7 @@ JudgeNav(r) ==
 LenAdj(n, Lm) == EMat(n, LAMBDA i, j : IF Lm[i][j] < INF THEN Lm[i][j] ELSE 0)
 Same(b) == IF b THEN "same" ELSE "differs"
 Drift(r) ==
-  IF r.raised # "" \/ r.malformed # "" THEN "na"
+  IF r.raised # "" \/ r.malformed # "" \/ Big(r) THEN "na"
   ELSE LET n == r.n IN
   CASE r.kind = "dist" /\ r.algo = "algebraic" -> Same(r.D = AlgebraicAll(n, AdjOfLen(n, r.Lm)))
     [] r.kind = "dist" /\ r.algo = "bfs" ->
@@ -164,7 +230,9 @@ Judge(r) ==
   THEN <<JudgeNav(r), Drift(r),
          IF \E i \in 1..r.n : r.L[i][i] # 0 THEN "selfloop"
          ELSE IF r.maxh < 0 THEN "max_hops_none" ELSE "max_hops_finite">>
-  ELSE LET DD == Dist(r.n, r.Lm) IN
+  ELSE IF r.kind = "retrieve_big" THEN <<JudgeRetrieveBig(r), "na", BigClass(r)>>
+  ELSE IF r.kind = "distbig" THEN <<JudgeDistBig(r), "na", BigClass(r)>>
+  ELSE LET DD == DistOf(r) IN
        <<CASE r.kind = "dist" -> JudgeDist(r, DD)
            [] r.kind = "agree" -> JudgeAgree(r, DD)
            [] r.kind = "mean" -> JudgeMean(r, DD)
